@@ -45,8 +45,8 @@ def central_errors(op, x, d, h0=2.0 ** -6):
 def quant(v, scale):
     q = v / scale * 2 ** 26
     if not np.isfinite(q):
-        return 2 ** 30
-    return int(min(round(q), 2 ** 30))
+        return 2 ** 28
+    return int(min(round(q), 2 ** 28))
 
 
 def recipes(tier='quick'):
